@@ -4,6 +4,7 @@
 -/
 import J1939.Model.Dll22
 import J1939.Props.C03
+import J1939.Lemmas.Bam21
 import J1939.Lemmas.Trace22
 import J1939.Lemmas.Bits
 import J1939.Lemmas.PyDict
@@ -480,6 +481,946 @@ theorem c02_bam_end_to_end (cfgO cfgR : Cfg) (sO sR : St) (midB mid : MessageId)
     have ha1 : a1.outs = [.wake] := e2
     rw [List.append_assoc, deliveries_append, x1, e9, ha1]
     simp [deliveries]
+
+
+/-! ## Connection mode (FD RTS/CTS) from end to end -/
+
+/-- the FD.TP.DT frames of segments a, a+1, …, a+n-1 (0-based) of `msg` in a session -/
+def dtFrames (src dest session : Nat) (msg : List Nat) (a n : Nat) : List Out :=
+  (List.range' a n).map (fun k => Out.tx (Tp22.dt Const.LUT_FD_DLC src dest session (k + 1) ((msg.drop (60 * k)).take 60) 0))
+
+theorem dtFrames_succ (src dest session : Nat) (msg : List Nat) (a n : Nat) :
+    dtFrames src dest session msg a (n + 1) =
+      Out.tx (Tp22.dt Const.LUT_FD_DLC src dest session (a + 1) ((msg.drop (60 * a)).take 60) 0) :: dtFrames src dest session msg (a + 1) n := by
+  simp [dtFrames, List.range'_succ]
+
+theorem pyIndex_chunk (msg : List Nat) (j : Nat) (hj : j < Tp22.num_segments msg.length) :
+    pyIndex (chunks60 msg) (j : Int) = some ((msg.drop (60 * j)).take 60) := by
+  unfold pyIndex
+  have : (0 : Int) ≤ (j : Int) := by omega
+  simp only [this, if_true, Int.toNat_natCast]
+  exact c02_chunks_get msg j hj
+
+/-- the whole window in one pass (no minimum interval): segments j … wn go out; after the LAST segment of the message the
+    end-of-message status follows and the record waits for the acknowledgement (T5), otherwise it waits for the CTS (T3) -/
+theorem sendWindow_all (cfg : Cfg) (now : Nat) (hiv : cfg.cmdtInterval = none) (msg : List Nat) (fuel : Nat) :
+    ∀ (b : Snd) (o : List Out) (j wn : Nat), b.data = chunks60 msg → b.numSegments = Tp22.num_segments msg.length →
+    b.next = (j : Int) → b.waitOn = some (wn : Int) → j ≤ wn → wn < Tp22.num_segments msg.length → wn - j < fuel →
+    sendWindow cfg now fuel b o =
+      (if wn + 1 = Tp22.num_segments msg.length then
+        ({ b with next := ((wn + 1 : Nat) : Int), deadline := now + Const.T22.T5, state := S_WAITING_EOM_ACK },
+         o ++ dtFrames b.src b.dest b.session msg j (wn + 1 - j) ++
+           [.tx (Tp22.eom_status b.src b.dest b.session b.messageSize b.numSegments b.pgn 0 0)], none)
+       else
+        ({ b with next := ((wn + 1 : Nat) : Int), state := S_WAITING_CTS, deadline := now + Const.T22.T3 },
+         o ++ dtFrames b.src b.dest b.session msg j (wn + 1 - j), none)) := by
+  induction fuel with
+  | zero => intro b o j wn _ _ _ _ _ _ h; omega
+  | succ fuel ih =>
+    intro b o j wn hdata hn hnext hw hle hwn hfuel
+    obtain ⟨pgn, prio, sess, ms, np, data, st, dl, src, dst, nx, wo⟩ := b
+    simp only at hdata hn hnext hw
+    subst hdata hn hnext hw
+    have hlt : (j : Int) < ((Tp22.num_segments msg.length : Nat) : Int) := by omega
+    have hidx : pyIndex (chunks60 msg) (j : Int) = some ((msg.drop (60 * j)).take 60) := pyIndex_chunk msg j (by omega)
+    have htn : ((j : Int) + 1).toNat = j + 1 := by omega
+    unfold sendWindow
+    simp only [hlt, if_true, hidx, htn]
+    have hc : ((j + 1 : Nat) : Int) = (j : Int) + 1 := by omega
+    by_cases hlast : j + 1 = Tp22.num_segments msg.length
+    · -- the last segment of the message
+      have hjw : j = wn := by omega
+      subst hjw
+      have e : ((j : Int) + 1 == ((Tp22.num_segments msg.length : Nat) : Int)) = true := by simp; omega
+      have h1 : j + 1 - j = 1 := by omega
+      rw [if_pos hlast]
+      simp only [e, if_true]
+      rw [h1, hc]
+      simp only [dtFrames, List.range'_one, List.map_cons, List.map_nil]
+    · have e : ((j : Int) + 1 == ((Tp22.num_segments msg.length : Nat) : Int)) = false := by
+        simp only [beq_eq_false_iff_ne, ne_eq]; omega
+      simp only [e, Bool.false_eq_true, if_false]
+      by_cases hjw : j = wn
+      · subst hjw
+        have e3 : ((j : Int) == (j : Int)) = true := by simp
+        have h1 : j + 1 - j = 1 := by omega
+        rw [if_neg hlast]
+        simp only [e3, if_true]
+        rw [h1, hc]
+        simp only [dtFrames, List.range'_one, List.map_cons, List.map_nil]
+      · have e3 : ((j : Int) == (wn : Int)) = false := by
+          simp only [beq_eq_false_iff_ne, ne_eq]; omega
+        simp only [e3, Bool.false_eq_true, if_false, hiv]
+        have := ih { pgn := pgn, priority := prio, session := sess, messageSize := ms, numSegments := Tp22.num_segments msg.length, data := chunks60 msg, state := st, deadline := dl, src := src, dest := dst, next := (j : Int) + 1, waitOn := some (wn : Int) }
+          (o ++ [.tx (Tp22.dt Const.LUT_FD_DLC src dst sess (j + 1) ((msg.drop (60 * j)).take 60) 0)])
+          (j + 1) wn rfl rfl (by simp only; omega) rfl (by omega) hwn (by omega)
+        dsimp only at this
+        rw [this]
+        have hk : wn + 1 - j = (wn + 1 - (j + 1)) + 1 := by omega
+        rw [hk, dtFrames_succ]
+        split <;> simp [List.append_assoc]
+/-- ORIGINATOR (FD), one due pass in SENDING_RTS_CTS with the window j … wn ahead (no minimum interval configured) -/
+theorem tickSndOne_sending (cfg : Cfg) (now : Nat) (hiv : cfg.cmdtInterval = none) (msg : List Nat) (b : Snd) (j wn : Nat)
+    (hs : b.state = S_SENDING_RTS_CTS) (hdata : b.data = chunks60 msg) (hn : b.numSegments = Tp22.num_segments msg.length)
+    (hnext : b.next = (j : Int)) (hw : b.waitOn = some (wn : Int)) (hle : j ≤ wn) (hwn : wn < Tp22.num_segments msg.length)
+    (hd0 : b.deadline ≠ 0) (hdt : b.deadline ≤ now) :
+    tickSndOne cfg now b =
+      (if wn + 1 = Tp22.num_segments msg.length then
+        (some { b with next := ((wn + 1 : Nat) : Int), deadline := now + Const.T22.T5, state := S_WAITING_EOM_ACK },
+         dtFrames b.src b.dest b.session msg j (wn + 1 - j) ++
+           [.tx (Tp22.eom_status b.src b.dest b.session b.messageSize b.numSegments b.pgn 0 0)], none, some (now + Const.T22.T5), .none)
+       else
+        (some { b with next := ((wn + 1 : Nat) : Int), state := S_WAITING_CTS, deadline := now + Const.T22.T3 },
+         dtFrames b.src b.dest b.session msg j (wn + 1 - j), none, some (now + Const.T22.T3), .none)) := by
+  have e1 : (b.deadline != 0) = true := by simpa using hd0
+  have e2 : ¬ b.deadline > now := by omega
+  have n12 : (S_SENDING_RTS_CTS == S_WAITING_CTS) = false := by decide
+  have n3 : (S_WAITING_EOM_ACK == S_SENDING_RTS_CTS) = false := by decide
+  have n1 : (S_WAITING_CTS == S_SENDING_RTS_CTS) = false := by decide
+  have hlt : b.next < (b.numSegments : Int) := by rw [hnext, hn]; omega
+  have hfuel : wn - j < (↑b.numSegments - b.next).toNat + 1 := by rw [hnext, hn]; omega
+  have hw' := sendWindow_all cfg now hiv msg ((↑b.numSegments - b.next).toNat + 1) b [] j wn hdata hn hnext hw hle hwn hfuel
+  unfold tickSndOne
+  simp only [e1, if_true, e2, if_false, hs, n12, Bool.false_eq_true, beq_self_eq_true, hlt, hw']
+  split <;> simp [n1, n3]
+/-! ### responder (FD), one in-order FD.TP.DT frame of a destination-specific session, exactly -/
+
+/-- the receive record holds the first `j` segments of `msg`; the next CTS is due when segment number `border` arrives -/
+structure RInv (msg : List Nat) (pgn j border mr : Nat) (r : Rcv) : Prop where
+  hdata : r.data = msg.take (60 * j)
+  hsize : r.messageSize = msg.length
+  hnum  : r.numSegments = Tp22.num_segments msg.length
+  hnext : r.nextPacket = j + 1
+  hb    : r.ctsBorder = some border
+  hmr   : r.maxRec = some mr
+  hpgn  : r.pgn = pgn
+
+theorem seg_data (msg : List Nat) (session j : Nat) (f : List Nat) (r : Rcv) (pgn border mr : Nat)
+    (hf : SegFrame msg session j f) (hi : RInv msg pgn j border mr r) (hpos : 0 < msg.length) :
+    (j + 1 < Tp22.num_segments msg.length →
+      r.data ++ f.drop 4 = msg.take (60 * (j + 1)) ∧ (r.data ++ f.drop 4).length < r.messageSize) ∧
+    (j + 1 = Tp22.num_segments msg.length →
+      (r.data ++ f.drop 4).length ≥ r.messageSize ∧ (r.data ++ f.drop 4).take r.messageSize = msg) := by
+  obtain ⟨pad, hpay, hpad⟩ := hf.pay
+  have hspec := num_segments_spec msg.length
+  have e : r.data ++ f.drop 4 = msg.take (60 * (j + 1)) ++ pad := by
+    rw [hi.hdata, hpay, ← List.append_assoc, take_add_chunk]
+  refine ⟨?_, ?_⟩
+  · intro hj
+    have hlt : 60 * (j + 1) < msg.length := by
+      have := hspec.2 hpos; omega
+    have hp : pad = [] := by
+      rcases hpad with h | h
+      · omega
+      · exact h
+    rw [e, hp, List.append_nil, hi.hsize]
+    refine ⟨rfl, ?_⟩
+    simp only [List.length_take]; omega
+  · intro hj
+    have hge : msg.length ≤ 60 * (j + 1) := by rw [hj]; exact hspec.1
+    have ht : msg.take (60 * (j + 1)) = msg := List.take_of_length_le hge
+    rw [e, ht, hi.hsize]
+    refine ⟨by simp, ?_⟩
+    simp
+/-- the common prefix of `_process_tp_dt` for an in-order segment frame of an open session -/
+theorem dt_prefix (s : St) (now : Nat) (mid : MessageId) (dest : Nat) (f : List Nat) (r : Rcv) (msg : List Nat) (session j pgn border mr : Nat)
+    (hf : SegFrame msg session j f) (hr : s.rcv.get? (Tp22.buffer_hash session mid.source_address dest) = some r)
+    (hi : RInv msg pgn j border mr r) :
+    processDt s now mid dest f =
+      (let h := Tp22.buffer_hash session mid.source_address dest
+       let r1 : Rcv := { r with data := r.data ++ f.drop 4, nextPacket := j + 1 + 1 }
+       if r1.data.length ≥ r1.messageSize then
+         let r2 := { r1 with data := r1.data.take r1.messageSize }
+         let r3 := if dest != Const.Addr.GLOBAL then { r2 with deadline := now + Const.T22.T1 } else r2
+         { st := { s with rcv := s.rcv.set h r3 }, outs := [.wake] }
+       else if dest != Const.Addr.GLOBAL then
+         if j + 1 ≥ border then
+           { st := { s with rcv := s.rcv.set h { r1 with ctsBorder := some (min (border + mr) r1.numSegments), deadline := now + Const.T22.T2 } },
+             outs := [.tx (Tp22.cts dest mid.source_address session (min mr (r1.numSegments - border)) (border + 1) r1.pgn), .wake] }
+         else { st := { s with rcv := s.rcv.set h { r1 with deadline := now + Const.T22.T1 } } }
+       else { st := { s with rcv := s.rcv.set h { r1 with deadline := now + Const.T22.T1 } } }) := by
+  have hl : ¬ f.length ≤ 4 := by have := hf.len; omega
+  have hseg' : (j + 1 == 0) = false := by simp
+  have hnx : (r.nextPacket != j + 1) = false := by simp [hi.hnext]
+  unfold processDt
+  simp only [hl, if_false, hf.sess, hf.seg, hseg', Bool.false_eq_true, hr, hnx, hi.hb, hi.hmr]
+
+/-- inside a window, message incomplete: the segment is stored, T1 re-armed, nothing is sent -/
+theorem dt22_mid (s : St) (now : Nat) (mid : MessageId) (dest : Nat) (f : List Nat) (r : Rcv) (msg : List Nat) (session j pgn border mr : Nat)
+    (hpos : 0 < msg.length) (hd : dest ≠ Const.Addr.GLOBAL)
+    (hf : SegFrame msg session j f) (hr : s.rcv.get? (Tp22.buffer_hash session mid.source_address dest) = some r)
+    (hi : RInv msg pgn j border mr r) (hjb : j + 1 < border) (hjn : j + 1 < Tp22.num_segments msg.length) :
+    (processDt s now mid dest f).outs = [] ∧ (processDt s now mid dest f).err = none ∧
+    ∃ r', (processDt s now mid dest f).st.rcv.get? (Tp22.buffer_hash session mid.source_address dest) = some r' ∧
+      RInv msg pgn (j + 1) border mr r' := by
+  obtain ⟨e1, e2⟩ := (seg_data msg session j f r pgn border mr hf hi hpos).1 hjn
+  have hd' : (dest != Const.Addr.GLOBAL) = true := by simpa using hd
+  have hnb : ¬ j + 1 ≥ border := by omega
+  rw [dt_prefix s now mid dest f r msg session j pgn border mr hf hr hi]
+  have hnc : ¬ (r.data ++ f.drop 4).length ≥ r.messageSize := by omega
+  simp only [hnc, if_false, hd', if_true, hnb]
+  refine ⟨trivial, trivial, _, PyDict.get?_set_self _ _ _, ?_⟩
+  exact ⟨e1, hi.hsize, hi.hnum, rfl, hi.hb, hi.hmr, hi.hpgn⟩
+
+/-- the segment that reaches the CTS border, message incomplete: exactly one CTS for the segments after the border -/
+theorem dt22_window_end (s : St) (now : Nat) (mid : MessageId) (dest : Nat) (f : List Nat) (r : Rcv) (msg : List Nat) (session j pgn border mr : Nat)
+    (hpos : 0 < msg.length) (hd : dest ≠ Const.Addr.GLOBAL)
+    (hf : SegFrame msg session j f) (hr : s.rcv.get? (Tp22.buffer_hash session mid.source_address dest) = some r)
+    (hi : RInv msg pgn j border mr r) (hjb : border ≤ j + 1) (hjn : j + 1 < Tp22.num_segments msg.length) :
+    (processDt s now mid dest f).outs =
+      [.tx (Tp22.cts dest mid.source_address session (min mr (Tp22.num_segments msg.length - border)) (border + 1) pgn), .wake] ∧
+    (processDt s now mid dest f).err = none ∧
+    ∃ r', (processDt s now mid dest f).st.rcv.get? (Tp22.buffer_hash session mid.source_address dest) = some r' ∧
+      RInv msg pgn (j + 1) (min (border + mr) (Tp22.num_segments msg.length)) mr r' := by
+  obtain ⟨e1, e2⟩ := (seg_data msg session j f r pgn border mr hf hi hpos).1 hjn
+  have hd' : (dest != Const.Addr.GLOBAL) = true := by simpa using hd
+  have hb : j + 1 ≥ border := hjb
+  rw [dt_prefix s now mid dest f r msg session j pgn border mr hf hr hi]
+  have hnc : ¬ (r.data ++ f.drop 4).length ≥ r.messageSize := by omega
+  simp only [hnc, if_false, hd', if_true, hb]
+  refine ⟨by rw [hi.hnum, hi.hpgn], trivial, _, PyDict.get?_set_self _ _ _, ?_⟩
+  exact ⟨e1, hi.hsize, hi.hnum, rfl, by rw [hi.hnum], hi.hmr, hi.hpgn⟩
+
+/-- the last segment of the message: the record holds exactly `msg` (padding cut off); nothing is sent — the responder
+    now waits for the end-of-message status -/
+theorem dt22_last (s : St) (now : Nat) (mid : MessageId) (dest : Nat) (f : List Nat) (r : Rcv) (msg : List Nat) (session j pgn border mr : Nat)
+    (hpos : 0 < msg.length) (hd : dest ≠ Const.Addr.GLOBAL)
+    (hf : SegFrame msg session j f) (hr : s.rcv.get? (Tp22.buffer_hash session mid.source_address dest) = some r)
+    (hi : RInv msg pgn j border mr r) (hjn : j + 1 = Tp22.num_segments msg.length) :
+    (processDt s now mid dest f).outs = [.wake] ∧ (processDt s now mid dest f).err = none ∧
+    ∃ r', (processDt s now mid dest f).st.rcv.get? (Tp22.buffer_hash session mid.source_address dest) = some r' ∧
+      r'.data = msg ∧ r'.messageSize = msg.length ∧ r'.numSegments = Tp22.num_segments msg.length ∧ r'.pgn = pgn := by
+  obtain ⟨e1, e2⟩ := (seg_data msg session j f r pgn border mr hf hi hpos).2 hjn
+  have hd' : (dest != Const.Addr.GLOBAL) = true := by simpa using hd
+  rw [dt_prefix s now mid dest f r msg session j pgn border mr hf hr hi]
+  simp only [e1, if_true, hd']
+  exact ⟨trivial, trivial, _, PyDict.get?_set_self _ _ _, e2, hi.hsize, hi.hnum, hi.hpgn⟩
+/-! ### responder (FD), the frames of one pass -/
+
+/-- the data bytes of the FD.TP.DT frames of segments a … a+n-1 -/
+def dtDatas (src dest session : Nat) (msg : List Nat) (a n : Nat) : List (List Nat) :=
+  (List.range' a n).map (fun k => (Tp22.dt Const.LUT_FD_DLC src dest session (k + 1) ((msg.drop (60 * k)).take 60) 0).data)
+
+theorem dtDatas_succ (src dest session : Nat) (msg : List Nat) (a n : Nat) :
+    dtDatas src dest session msg a (n + 1) =
+      (Tp22.dt Const.LUT_FD_DLC src dest session (a + 1) ((msg.drop (60 * a)).take 60) 0).data :: dtDatas src dest session msg (a + 1) n := by
+  simp [dtDatas, List.range'_succ]
+
+/-- segments that stay inside the window and do not complete the message: nothing sent, nothing delivered -/
+theorem feed_mid (msg : List Nat) (pgn border mr : Nat) (mid : MessageId) (dest session src t : Nat) (hpos : 0 < msg.length)
+    (hd : dest ≠ Const.Addr.GLOBAL) (hs : session < 16) (h24 : Tp22.num_segments msg.length < 16777216) (k : Nat) :
+    ∀ (j : Nat) (s : St) (r : Rcv), j + k < border → j + k < Tp22.num_segments msg.length →
+    s.rcv.get? (Tp22.buffer_hash session mid.source_address dest) = some r → RInv msg pgn j border mr r →
+    let q := feedDt s mid dest ((List.replicate k t).zip (dtDatas src dest session msg j k))
+    txFrames q.2 = [] ∧ deliveries q.2 = [] ∧
+    ∃ r', q.1.rcv.get? (Tp22.buffer_hash session mid.source_address dest) = some r' ∧ RInv msg pgn (j + k) border mr r' := by
+  induction k with
+  | zero =>
+    intro j s r _ _ hr hi
+    simp only [dtDatas, List.range'_zero, List.map_nil, List.zip_nil_right, feedDt]
+    exact ⟨rfl, rfl, r, hr, hi⟩
+  | succ k ih =>
+    intro j s r hjb hjn hr hi
+    simp only [List.replicate_succ, dtDatas_succ, List.zip_cons_cons, feedDt]
+    have hf := c02_built_frame_is_segframe msg src dest session j hs (by omega) (by simp only [Nat.reducePow]; omega)
+    obtain ⟨o1, o2, r', hr', hi'⟩ := dt22_mid s t mid dest _ r msg session j pgn border mr hpos hd hf hr hi (by omega) (by omega)
+    have := ih (j + 1) _ r' (by omega) (by omega) hr' hi'
+    simp only at this
+    obtain ⟨a1, a2, r'', a3, a4⟩ := this
+    rw [txFrames_append, deliveries_append, o1, a1, a2]
+    refine ⟨rfl, rfl, r'', a3, ?_⟩
+    have : j + (k + 1) = j + 1 + k := by omega
+    rw [this]; exact a4
+theorem feedDt_append (s : St) (mid : MessageId) (dest : Nat) (a b : List (Nat × List Nat)) :
+    feedDt s mid dest (a ++ b) =
+      ((feedDt (feedDt s mid dest a).1 mid dest b).1, (feedDt s mid dest a).2 ++ (feedDt (feedDt s mid dest a).1 mid dest b).2) := by
+  induction a generalizing s with
+  | nil => simp [feedDt]
+  | cons x a ih =>
+    obtain ⟨t, f⟩ := x
+    simp only [List.cons_append, feedDt, ih, List.append_assoc]
+
+theorem rep_zip_snoc {α : Type} (t : Nat) (xs : List α) (y : α) :
+    (List.replicate (xs.length + 1) t).zip (xs ++ [y]) = (List.replicate xs.length t).zip xs ++ [(t, y)] := by
+  induction xs with
+  | nil => rfl
+  | cons x xs ih =>
+    simp only [List.length_cons, List.replicate_succ, List.cons_append, List.zip_cons_cons]
+    rw [← List.replicate_succ, ih]
+
+theorem dtDatas_length (src dest session : Nat) (msg : List Nat) (a n : Nat) : (dtDatas src dest session msg a n).length = n := by
+  simp [dtDatas]
+
+theorem dtDatas_snoc (src dest session : Nat) (msg : List Nat) (a n : Nat) :
+    dtDatas src dest session msg a (n + 1) =
+      dtDatas src dest session msg a n ++ [(Tp22.dt Const.LUT_FD_DLC src dest session (a + n + 1) ((msg.drop (60 * (a + n))).take 60) 0).data] := by
+  simp only [dtDatas, List.range'_concat, List.map_append, List.map_cons, List.map_nil, Nat.one_mul]
+
+/-- the frames of a pass that ends a window but not the message: exactly one CTS, nothing delivered -/
+theorem feed_window (msg : List Nat) (pgn mr : Nat) (mid : MessageId) (dest session src t : Nat) (hpos : 0 < msg.length)
+    (hd : dest ≠ Const.Addr.GLOBAL) (hs : session < 16) (h24 : Tp22.num_segments msg.length < 16777216)
+    (j wn : Nat) (s : St) (r : Rcv) (hj : j ≤ wn) (hwn : wn + 1 < Tp22.num_segments msg.length)
+    (hr : s.rcv.get? (Tp22.buffer_hash session mid.source_address dest) = some r) (hi : RInv msg pgn j (wn + 1) mr r) :
+    let q := feedDt s mid dest ((List.replicate (wn + 1 - j) t).zip (dtDatas src dest session msg j (wn + 1 - j)))
+    txFrames q.2 = [Tp22.cts dest mid.source_address session (min mr (Tp22.num_segments msg.length - (wn + 1))) (wn + 2) pgn] ∧
+    deliveries q.2 = [] ∧
+    ∃ r', q.1.rcv.get? (Tp22.buffer_hash session mid.source_address dest) = some r' ∧
+      RInv msg pgn (wn + 1) (min (wn + 1 + mr) (Tp22.num_segments msg.length)) mr r' := by
+  intro q
+  have hk : wn + 1 - j = (wn - j) + 1 := by omega
+  have hq : q = feedDt s mid dest ((List.replicate (wn - j) t).zip (dtDatas src dest session msg j (wn - j)) ++
+      [(t, (Tp22.dt Const.LUT_FD_DLC src dest session (j + (wn - j) + 1) ((msg.drop (60 * (j + (wn - j)))).take 60) 0).data)]) := by
+    show feedDt s mid dest ((List.replicate (wn + 1 - j) t).zip (dtDatas src dest session msg j (wn + 1 - j))) = _
+    rw [hk, dtDatas_snoc]
+    have := rep_zip_snoc t (dtDatas src dest session msg j (wn - j))
+      ((Tp22.dt Const.LUT_FD_DLC src dest session (j + (wn - j) + 1) ((msg.drop (60 * (j + (wn - j)))).take 60) 0).data)
+    rw [dtDatas_length] at this
+    rw [this]
+  obtain ⟨a1, a2, r1, a3, a4⟩ := feed_mid msg pgn (wn + 1) mr mid dest session src t hpos hd hs h24 (wn - j) j s r (by omega) (by omega) hr hi
+  have hjw : j + (wn - j) = wn := by omega
+  rw [hjw] at a4
+  have hf := c02_built_frame_is_segframe msg src dest session wn hs (by omega) (by simp only [Nat.reducePow]; omega)
+  obtain ⟨o1, o2, r', hr', hi'⟩ := dt22_window_end (feedDt s mid dest ((List.replicate (wn - j) t).zip (dtDatas src dest session msg j (wn - j)))).1
+    t mid dest _ r1 msg session wn pgn (wn + 1) mr hpos hd hf a3 a4 (by omega) hwn
+  rw [hq, feedDt_append, hjw]
+  simp only [feedDt, List.append_nil]
+  rw [txFrames_append, deliveries_append, a1, a2, o1]
+  refine ⟨by simp [txFrames], by simp [deliveries], r', hr', hi'⟩
+/-- RESPONDER (FD), the end-of-message status of the stack for a record that holds the whole message: ONE delivery,
+    the acknowledgement, the record is removed -/
+theorem eoms_accepted (cfg : Cfg) (s : St) (now : Nat) (mid : MessageId) (dest session pgn : Nat) (msg : List Nat) (r : Rcv)
+    (hsrc : mid.source_address ≠ Const.Addr.GLOBAL) (hd : dest ≠ Const.Addr.GLOBAL) (hs : session < 16)
+    (hlen : msg.length < 16777216) (h24 : Tp22.num_segments msg.length < 16777216) (hp : pgn < 16777216)
+    (hr : s.rcv.get? (Tp22.buffer_hash session mid.source_address dest) = some r)
+    (h1 : r.data = msg) (h2 : r.messageSize = msg.length) (h3 : r.numSegments = Tp22.num_segments msg.length) (h4 : r.pgn = pgn) :
+    let f := Tp22.eom_status mid.source_address dest session msg.length (Tp22.num_segments msg.length) pgn 0 0
+    (processCm cfg s now mid dest f.data).outs =
+      [.notify mid.priority pgn mid.source_address dest msg,
+       .tx (Tp22.eom_ack dest mid.source_address session msg.length (Tp22.num_segments msg.length) pgn)] ∧
+    (processCm cfg s now mid dest f.data).err = none ∧
+    (processCm cfg s now mid dest f.data).st.rcv.get? (Tp22.buffer_hash session mid.source_address dest) = none := by
+  intro f
+  have hfd : f.data = Ref.fdCm 2 session msg.length (Tp22.num_segments msg.length) 0 0 pgn :=
+    (J1939.Props.C03.c03_22_builders mid.source_address dest 0 session pgn msg.length (Tp22.num_segments msg.length) 0 0 0 0 0 0).2.2.1
+  obtain ⟨d1, d2, d3, d4, _, d6, d7⟩ := J1939.Props.C03.c03_22_decode_cm 2 session msg.length (Tp22.num_segments msg.length) 0 0 pgn
+    (by omega) hs hlen h24 (by omega) hp
+  rw [hfd]
+  generalize Ref.fdCm 2 session msg.length (Tp22.num_segments msg.length) 0 0 pgn = data at *
+  have hl : ¬ data.length < 12 := by omega
+  have hsrc' : (mid.source_address == Const.Addr.GLOBAL) = false := by simpa using hsrc
+  have hd' : (dest != Const.Addr.GLOBAL) = true := by simpa using hd
+  have c1 : (2 == Const.CM22.RTS) = false := by decide
+  have c2 : (2 == Const.CM22.CTS) = false := by decide
+  have c3 : (2 == Const.CM22.EOM_STATUS) = true := by decide
+  unfold processCm
+  simp only [hl, if_false, hsrc', d1, d2, d3, d4, d6, c1, c2, c3, Bool.false_eq_true, if_true, hr, h1, h2, h3, h4, beq_self_eq_true,
+    Bool.and_self, hd']
+  exact ⟨rfl, trivial, PyDict.get?_erase_self _ _⟩
+/-! ### originator (FD), the responder's answers -/
+
+/-- a CTS of the responder for segment j+1 granting g segments: the record is due at once and will send j … j+g−1 -/
+theorem cts_accepted (cfg : Cfg) (s : St) (now : Nat) (mid : MessageId) (dest session pgn : Nat) (b : Snd) (j g : Nat)
+    (hsrc : mid.source_address ≠ Const.Addr.GLOBAL) (hs : session < 16) (hp : pgn < 16777216)
+    (hb : s.snd.get? (Tp22.buffer_hash session dest mid.source_address) = some b)
+    (hg : 0 < g) (hg256 : g < 256) (hgc : g ≤ cfg.maxCmdt) (hfit : j + g ≤ b.numSegments) (h24 : b.numSegments < 16777216) :
+    processCm cfg s now mid dest (Tp22.cts mid.source_address dest session g (j + 1) pgn).data =
+      { st := { s with snd := s.snd.set (Tp22.buffer_hash session dest mid.source_address)
+                                ({ b with next := (j : Int), waitOn := some (((j + g - 1 : Nat) : Int)), state := S_SENDING_RTS_CTS,
+                                          deadline := now }) },
+        outs := [.wake] } := by
+  have hfd : (Tp22.cts mid.source_address dest session g (j + 1) pgn).data = Ref.fdCm 1 session 16777215 (j + 1) g 0 pgn :=
+    (J1939.Props.C03.c03_22_builders mid.source_address dest 0 session pgn 0 0 0 0 g (j + 1) 0 0).2.1
+  obtain ⟨d1, d2, _, d4, d5, d6, d7⟩ := J1939.Props.C03.c03_22_decode_cm 1 session 16777215 (j + 1) g 0 pgn
+    (by omega) hs (by omega) (by omega) hg256 hp
+  rw [hfd]
+  generalize Ref.fdCm 1 session 16777215 (j + 1) g 0 pgn = data at *
+  have hl : ¬ data.length < 12 := by omega
+  have hsrc' : (mid.source_address == Const.Addr.GLOBAL) = false := by simpa using hsrc
+  have c1 : (1 == Const.CM22.RTS) = false := by decide
+  have c2 : (1 == Const.CM22.CTS) = true := by decide
+  have hg0 : (g == 0) = false := by simp; omega
+  unfold processCm
+  simp only [hl, if_false, hsrc', d1, d2, d4, d5, d6, c1, c2, Bool.false_eq_true, if_true, hb, hg0]
+  have x1 : ¬ ((g : Int) > (b.numSegments : Int)) := by omega
+  have x2 : ¬ ((g : Int) > (cfg.maxCmdt : Int)) := by omega
+  have x3 : ¬ ((g : Int) > (b.numSegments : Int) - (((j + 1 : Nat) : Int) - 1)) := by omega
+  simp only [x1, if_false, x2, x3]
+  have y1 : (((j + 1 : Nat) : Int) - 1) = (j : Int) := by omega
+  have y2 : ((j : Int) + (g : Int) - 1) = ((j + g - 1 : Nat) : Int) := by omega
+  rw [y1, y2]
+
+/-- the end-of-message acknowledgement of the responder: reported once, the record is finished and due at once -/
+theorem eoma_accepted (cfg : Cfg) (s : St) (now : Nat) (mid : MessageId) (dest session pgn size n : Nat) (b : Snd)
+    (hsrc : mid.source_address ≠ Const.Addr.GLOBAL) (hs : session < 16) (hp : pgn < 16777216) (hz : size < 16777216) (hn : n < 16777216)
+    (hb : s.snd.get? (Tp22.buffer_hash session dest mid.source_address) = some b) :
+    processCm cfg s now mid dest (Tp22.eom_ack mid.source_address dest session size n pgn).data =
+      { st := { s with snd := s.snd.set (Tp22.buffer_hash session dest mid.source_address)
+                                ({ b with state := S_EOM_ACK_RECEIVED, deadline := now }) },
+        outs := [.notify mid.priority pgn mid.source_address dest (Tp22.eom_ack mid.source_address dest session size n pgn).data, .wake] } := by
+  have hfd : (Tp22.eom_ack mid.source_address dest session size n pgn).data = Ref.fdCm 3 session size n 255 255 pgn :=
+    (J1939.Props.C03.c03_22_builders mid.source_address dest 0 session pgn size n 0 0 0 0 0 0).2.2.2.1
+  obtain ⟨d1, d2, _, _, _, d6, d7⟩ := J1939.Props.C03.c03_22_decode_cm 3 session size n 255 255 pgn (by omega) hs hz hn (by omega) hp
+  rw [hfd]
+  generalize Ref.fdCm 3 session size n 255 255 pgn = data at *
+  have hl : ¬ data.length < 12 := by omega
+  have hsrc' : (mid.source_address == Const.Addr.GLOBAL) = false := by simpa using hsrc
+  have c1 : (3 == Const.CM22.RTS) = false := by decide
+  have c2 : (3 == Const.CM22.CTS) = false := by decide
+  have c3 : (3 == Const.CM22.EOM_STATUS) = false := by decide
+  have c4 : (3 == Const.CM22.EOM_ACK) = true := by decide
+  unfold processCm
+  simp only [hl, if_false, hsrc', d1, d2, d6, c1, c2, c3, c4, Bool.false_eq_true, if_true, hb]
+
+/-- RESPONDER, the RTS of the originator on a free (session, pair): a receive record and one CTS for segment 1 granting
+    min(own maximum, announced limit, segments) -/
+theorem rts_accepted (cfg : Cfg) (s : St) (now : Nat) (mid : MessageId) (dest prio session pgn size n mx : Nat)
+    (hsrc : mid.source_address ≠ Const.Addr.GLOBAL) (hs : session < 16) (hp : pgn < 16777216) (hz : size < 16777216)
+    (hn : n < 16777216) (hm : mx < 256)
+    (hfree : s.rcv.contains (Tp22.buffer_hash session mid.source_address dest) = false) :
+    processCm cfg s now mid dest (Tp22.rts prio mid.source_address dest session pgn size n mx 0).data =
+      { st := { s with rcv := s.rcv.set (Tp22.buffer_hash session mid.source_address dest)
+                                ({ pgn := pgn, session := session, messageSize := size, numSegments := n, nextPacket := 1,
+                                   ctsBorder := some (min cfg.maxCmdt (min mx n)), maxRec := some (min cfg.maxCmdt (min mx n)),
+                                   data := [], deadline := now + Const.T22.T2, src := mid.source_address, dest := dest }) },
+        outs := [.tx (Tp22.cts dest mid.source_address session (min cfg.maxCmdt (min mx n)) 1 pgn), .wake] } := by
+  have hfd : (Tp22.rts prio mid.source_address dest session pgn size n mx 0).data = Ref.fdCm 0 session size n mx 0 pgn :=
+    (J1939.Props.C03.c03_22_builders mid.source_address dest prio session pgn size n mx 0 0 0 0 0).1
+  obtain ⟨d1, d2, d3, d4, d5, d6, d7⟩ := J1939.Props.C03.c03_22_decode_cm 0 session size n mx 0 pgn (by omega) hs hz hn hm hp
+  rw [hfd]
+  generalize Ref.fdCm 0 session size n mx 0 pgn = data at *
+  have hl : ¬ data.length < 12 := by omega
+  have hsrc' : (mid.source_address == Const.Addr.GLOBAL) = false := by simpa using hsrc
+  have c1 : (0 == Const.CM22.RTS) = true := by decide
+  unfold processCm
+  simp only [hl, if_false, hsrc', d1, d2, d3, d4, d5, d6, c1, if_true, hfree, Bool.false_eq_true]
+/-! ### dispatch of the stack's own FD.TP frames through `notify` -/
+
+theorem mask_fdcm : ∀ da, da < 256 → (19712 + da) &&& 130816 = 19712 := by decide +kernel
+theorem mask_fddt : ∀ da, da < 256 → (19968 + da) &&& 130816 = 19968 := by decide +kernel
+
+theorem npv_fdcm (da : Nat) (h : da < 256) :
+    Tp21.notify_pgn_value { data_page := 0, pdu_format := 77, pdu_specific := da } = 19712 := by
+  have hv : PGN.value { data_page := 0, pdu_format := 77, pdu_specific := da } = 19712 + da := by
+    rw [Lemmas.pgn_value_arith _ (by simp only [Lemmas.PGN.WF]; omega)]; simp only
+  rw [Tp21.notify_pgn_value, hv]; exact mask_fdcm da h
+
+theorem npv_fddt (da : Nat) (h : da < 256) :
+    Tp21.notify_pgn_value { data_page := 0, pdu_format := 78, pdu_specific := da } = 19968 := by
+  have hv : PGN.value { data_page := 0, pdu_format := 78, pdu_specific := da } = 19968 + da := by
+    rw [Lemmas.pgn_value_arith _ (by simp only [Lemmas.PGN.WF]; omega)]; simp only
+  rw [Tp21.notify_pgn_value, hv]; exact mask_fddt da h
+
+theorem notify_fd_cm (cfg : Cfg) (s : St) (now : Nat) (acc : Nat → Bool) (canId da : Nat) (data : List Nat)
+    (h : PGN.from_message_id (MessageId.ofCanId canId) = { data_page := 0, pdu_format := 77, pdu_specific := da })
+    (hda : da < 256) (hacc : da = 255 ∨ acc da = true) :
+    notify cfg s now acc canId data = processCm cfg s now (MessageId.ofCanId canId) da data := by
+  have hacc' : (da != Const.Addr.GLOBAL && !acc da) = false := by
+    rcases hacc with hg | ha
+    · simp [hg]
+    · simp [ha]
+  unfold notify
+  simp only [h, hacc', npv_fdcm da hda]
+  rfl
+
+theorem notify_fd_dt (cfg : Cfg) (s : St) (now : Nat) (acc : Nat → Bool) (canId da : Nat) (data : List Nat)
+    (h : PGN.from_message_id (MessageId.ofCanId canId) = { data_page := 0, pdu_format := 78, pdu_specific := da })
+    (hda : da < 256) (hacc : da = 255 ∨ acc da = true) :
+    notify cfg s now acc canId data = processDt s now (MessageId.ofCanId canId) da data := by
+  have hacc' : (da != Const.Addr.GLOBAL && !acc da) = false := by
+    rcases hacc with hg | ha
+    · simp [hg]
+    · simp [ha]
+  unfold notify
+  simp only [h, hacc', npv_fddt da hda]
+  rfl
+
+/-- DISPATCH (FD): the identifier the FD builders compose (priority, PF 0x4D / 0x4E, destination, source) parses back to
+    those fields and `notify` hands the frame to `_process_tp_cm` / `_process_tp_dt` -/
+theorem fd_dispatch (cfg : Cfg) (s : St) (now : Nat) (acc : Nat → Bool) (prio da sa : Nat) (data : List Nat)
+    (hp : prio < 8) (hda : da < 256) (hsa : sa < 256) (hacc : da = 255 ∨ acc da = true) :
+    let idCm := MessageId.can_id (MessageId.ofFields prio (PGN.value (PGN.ofFields 0 77 da)) sa)
+    let idDt := MessageId.can_id (MessageId.ofFields prio (PGN.value (PGN.ofFields 0 78 da)) sa)
+    (MessageId.ofCanId idCm).source_address = sa ∧ (MessageId.ofCanId idCm).priority = prio ∧
+    (MessageId.ofCanId idDt).source_address = sa ∧ (MessageId.ofCanId idDt).priority = prio ∧
+    notify cfg s now acc idCm data = processCm cfg s now (MessageId.ofCanId idCm) da data ∧
+    notify cfg s now acc idDt data = processDt s now (MessageId.ofCanId idDt) da data := by
+  intro idCm idDt
+  obtain ⟨a1, a2, a3⟩ := Dll21.tp_id_parse prio 77 da sa hp (by omega) hda hsa
+  obtain ⟨b1, b2, b3⟩ := Dll21.tp_id_parse prio 78 da sa hp (by omega) hda hsa
+  exact ⟨a1, a2, b1, b2, notify_fd_cm cfg s now acc idCm da data a3 hda hacc, notify_fd_dt cfg s now acc idDt da data b3 hda hacc⟩
+
+theorem fd_builder_ids (sa da prio ctl sess size seg b7 b8 pgn dtfi : Nat) (lut d : List Nat) :
+    (Tp22.cm sa da ctl sess size seg b7 b8 pgn prio).id = MessageId.can_id (MessageId.ofFields prio (PGN.value (PGN.ofFields 0 77 da)) sa) ∧
+    (Tp22.dt lut sa da sess seg d dtfi).id = MessageId.can_id (MessageId.ofFields 7 (PGN.value (PGN.ofFields 0 78 da)) sa) := by
+  refine ⟨rfl, ?_⟩
+  unfold Tp22.dt; rfl
+/-! ### the two parties together (FD connection mode) -/
+
+/-- a node receives the given frames through `notify`, all at time `t` -/
+def rxAll (cfg : Cfg) (acc : Nat → Bool) (t : Nat) : St → List Frame → St × List Out
+  | s, [] => (s, [])
+  | s, f :: fs =>
+    let r := notify cfg s t acc f.id f.data
+    let q := rxAll cfg acc t r.st fs
+    (q.1, r.outs ++ q.2)
+
+theorem rxAll_append (cfg : Cfg) (acc : Nat → Bool) (t : Nat) (s : St) (a b : List Frame) :
+    rxAll cfg acc t s (a ++ b) = ((rxAll cfg acc t (rxAll cfg acc t s a).1 b).1, (rxAll cfg acc t s a).2 ++ (rxAll cfg acc t (rxAll cfg acc t s a).1 b).2) := by
+  induction a generalizing s with
+  | nil => simp [rxAll]
+  | cons f a ih => simp only [List.cons_append, rxAll, ih, List.append_assoc]
+
+/-- the identifier FD.TP.DT frames from `sa` to `da` arrive with, parsed -/
+def midDt (sa da : Nat) : MessageId :=
+  MessageId.ofCanId (MessageId.can_id (MessageId.ofFields 7 (PGN.value (PGN.ofFields 0 78 da)) sa))
+/-- … and FD.TP.CM frames of priority 7 -/
+def midCm (sa da : Nat) : MessageId :=
+  MessageId.ofCanId (MessageId.can_id (MessageId.ofFields 7 (PGN.value (PGN.ofFields 0 77 da)) sa))
+
+theorem mid_facts (sa da : Nat) (hsa : sa < 256) (hda : da < 256) :
+    (midDt sa da).source_address = sa ∧ (midDt sa da).priority = 7 ∧ (midCm sa da).source_address = sa ∧ (midCm sa da).priority = 7 := by
+  obtain ⟨a1, a2, _⟩ := Dll21.tp_id_parse 7 77 da sa (by omega) (by omega) hda hsa
+  obtain ⟨b1, b2, _⟩ := Dll21.tp_id_parse 7 78 da sa (by omega) (by omega) hda hsa
+  exact ⟨b1, b2, a1, a2⟩
+
+/-- receiving the FD.TP.DT frames of the stack through `notify` is `_process_tp_dt` frame by frame -/
+theorem rxAll_dt (cfg : Cfg) (acc : Nat → Bool) (t sa da session : Nat) (msg : List Nat) (hsa : sa < 256) (hda : da < 256)
+    (hacc : da = 255 ∨ acc da = true) (a n : Nat) (s : St) :
+    rxAll cfg acc t s ((List.range' a n).map (fun k => Tp22.dt Const.LUT_FD_DLC sa da session (k + 1) ((msg.drop (60 * k)).take 60) 0)) =
+      feedDt s (midDt sa da) da ((List.replicate n t).zip (dtDatas sa da session msg a n)) := by
+  obtain ⟨_, _, h3⟩ := Dll21.tp_id_parse 7 78 da sa (by omega) (by omega) hda hsa
+  induction n generalizing a s with
+  | zero => simp [rxAll, dtDatas, feedDt]
+  | succ n ih =>
+    simp only [List.range'_succ, List.map_cons, rxAll, List.replicate_succ, dtDatas_succ, List.zip_cons_cons, feedDt]
+    have hid := (fd_builder_ids sa da 0 0 session 0 (a + 1) 0 0 0 0 Const.LUT_FD_DLC ((msg.drop (60 * a)).take 60)).2
+    rw [hid, notify_fd_dt cfg s t acc _ da _ h3 hda hacc, ih]
+    rfl
+/-- one ROUND of the session number `i` from `sa` to `da`: the originator's pass serves the send record at `x.1`; the
+    responder receives that pass's frames through `notify` at `x.2.1`; the originator receives the responder's answers
+    through `notify` at `x.2.2`.  None: the originator has no such record.  Result: both states, the responder's
+    outputs, the originator's outputs while handling the answers, and the session number the pass released -/
+def round (cfgO cfgR : Cfg) (accO accR : Nat → Bool) (i sa da : Nat) (x : Nat × Nat × Nat) (sO sR : St) :
+    Option (St × St × List Out × List Out × Release) :=
+  match sO.snd.get? (Tp22.buffer_hash i sa da) with
+  | none => none
+  | some b =>
+    let p := tickSndOne cfgO x.1 b
+    let sO1 := sndApply sO (Tp22.buffer_hash i sa da) p.1
+    let q := rxAll cfgR accR x.2.1 sR (txFrames p.2.1)
+    let a := rxAll cfgO accO x.2.2 sO1 (txFrames q.2)
+    some (a.1, q.1, q.2, a.2, p.2.2.2.2)
+
+/-- the originator's record between rounds: segments 0 … j−1 are out, it may send up to segment `wn` (0-based) -/
+structure OInv (msg : List Nat) (i sa da pgn j wn : Nat) (b : Snd) : Prop where
+  hdata  : b.data = chunks60 msg
+  hnum   : b.numSegments = Tp22.num_segments msg.length
+  hsize  : b.messageSize = msg.length
+  hnext  : b.next = (j : Int)
+  hwait  : b.waitOn = some (wn : Int)
+  hstate : b.state = S_SENDING_RTS_CTS
+  hdl    : b.deadline ≠ 0
+  hsess  : b.session = i
+  hsrc   : b.src = sa
+  hdest  : b.dest = da
+  hpgn   : b.pgn = pgn
+/-- the frames of a pass that reaches the end of the message: nothing is sent yet, the record holds the whole message -/
+theorem feed_last (msg : List Nat) (pgn mr : Nat) (mid : MessageId) (dest session src t : Nat) (hpos : 0 < msg.length)
+    (hd : dest ≠ Const.Addr.GLOBAL) (hs : session < 16) (h24 : Tp22.num_segments msg.length < 16777216)
+    (j wn : Nat) (s : St) (r : Rcv) (hj : j ≤ wn) (hwn : wn + 1 = Tp22.num_segments msg.length)
+    (hr : s.rcv.get? (Tp22.buffer_hash session mid.source_address dest) = some r) (hi : RInv msg pgn j (wn + 1) mr r) :
+    let q := feedDt s mid dest ((List.replicate (wn + 1 - j) t).zip (dtDatas src dest session msg j (wn + 1 - j)))
+    txFrames q.2 = [] ∧ deliveries q.2 = [] ∧
+    ∃ r', q.1.rcv.get? (Tp22.buffer_hash session mid.source_address dest) = some r' ∧
+      r'.data = msg ∧ r'.messageSize = msg.length ∧ r'.numSegments = Tp22.num_segments msg.length ∧ r'.pgn = pgn := by
+  intro q
+  have hk : wn + 1 - j = (wn - j) + 1 := by omega
+  have hq : q = feedDt s mid dest ((List.replicate (wn - j) t).zip (dtDatas src dest session msg j (wn - j)) ++
+      [(t, (Tp22.dt Const.LUT_FD_DLC src dest session (j + (wn - j) + 1) ((msg.drop (60 * (j + (wn - j)))).take 60) 0).data)]) := by
+    show feedDt s mid dest ((List.replicate (wn + 1 - j) t).zip (dtDatas src dest session msg j (wn + 1 - j))) = _
+    rw [hk, dtDatas_snoc]
+    have := rep_zip_snoc t (dtDatas src dest session msg j (wn - j))
+      ((Tp22.dt Const.LUT_FD_DLC src dest session (j + (wn - j) + 1) ((msg.drop (60 * (j + (wn - j)))).take 60) 0).data)
+    rw [dtDatas_length] at this
+    rw [this]
+  obtain ⟨a1, a2, r1, a3, a4⟩ := feed_mid msg pgn (wn + 1) mr mid dest session src t hpos hd hs h24 (wn - j) j s r (by omega) (by omega) hr hi
+  have hjw : j + (wn - j) = wn := by omega
+  rw [hjw] at a4
+  have hf := c02_built_frame_is_segframe msg src dest session wn hs (by omega) (by simp only [Nat.reducePow]; omega)
+  obtain ⟨o1, o2, r', hr', e1, e2, e3, e4⟩ := dt22_last (feedDt s mid dest ((List.replicate (wn - j) t).zip (dtDatas src dest session msg j (wn - j)))).1
+    t mid dest _ r1 msg session wn pgn (wn + 1) mr hpos hd hf a3 a4 hwn
+  rw [hq, feedDt_append, hjw]
+  simp only [feedDt, List.append_nil]
+  rw [txFrames_append, deliveries_append, a1, a2, o1]
+  exact ⟨by simp [txFrames], by simp [deliveries], r', hr', e1, e2, e3, e4⟩
+
+/-- ONE ROUND (FD connection mode, no minimum interval) keeps the session invariant with a whole further window
+    transferred, or completes the transfer -/
+theorem c02_rtscts_round (cfgO cfgR : Cfg) (accO accR : Nat → Bool) (hiv : cfgO.cmdtInterval = none) (msg : List Nat) (i sa da pgn mr : Nat)
+    (hpos : 0 < msg.length) (hlen : msg.length < 16777216) (hp : pgn < 16777216) (hi16 : i < 16)
+    (hsa : sa < 256) (hda : da < 256) (hdne : da ≠ 255) (hsne : sa ≠ 255) (haO : accO sa = true) (haR : accR da = true)
+    (hmr : 0 < mr) (hmr256 : mr < 256) (hmrO : mr ≤ cfgO.maxCmdt)
+    (x : Nat × Nat × Nat) (sO sR : St) (j wn : Nat) (b : Snd) (r : Rcv)
+    (hj : j ≤ wn) (hwn : wn < Tp22.num_segments msg.length)
+    (hb : sO.snd.get? (Tp22.buffer_hash i sa da) = some b) (hr : sR.rcv.get? (Tp22.buffer_hash i sa da) = some r)
+    (ob : OInv msg i sa da pgn j wn b) (rb : RInv msg pgn j (wn + 1) mr r)
+    (hdue : b.deadline ≤ x.1) (htO : 0 < x.2.2) :
+    ∃ sO' sR' oR oO, round cfgO cfgR accO accR i sa da x sO sR = some (sO', sR', oR, oO, .none) ∧
+      ((∃ wn' b' r', wn < wn' ∧ wn' < Tp22.num_segments msg.length ∧
+          sO'.snd.get? (Tp22.buffer_hash i sa da) = some b' ∧ sR'.rcv.get? (Tp22.buffer_hash i sa da) = some r' ∧
+          OInv msg i sa da pgn (wn + 1) wn' b' ∧ RInv msg pgn (wn + 1) (wn' + 1) mr r' ∧ b'.deadline = x.2.2 ∧
+          deliveries oR = [] ∧ deliveries oO = []) ∨
+       (deliveries oR = [(7, pgn, sa, da, msg)] ∧ sR'.rcv.get? (Tp22.buffer_hash i sa da) = none ∧
+        deliveries oO = [(7, pgn, da, sa, (Tp22.eom_ack da sa i msg.length (Tp22.num_segments msg.length) pgn).data)] ∧
+        ∃ bf, sO'.snd.get? (Tp22.buffer_hash i sa da) = some bf ∧ bf.state = S_EOM_ACK_RECEIVED ∧ bf.deadline = x.2.2 ∧
+          bf.session = i)) := by
+  have h24 : Tp22.num_segments msg.length < 16777216 := by
+    have := (num_segments_spec msg.length).2 hpos; omega
+  obtain ⟨m1, m2, m3, m4⟩ := mid_facts sa da hsa hda
+  obtain ⟨n1, n2, n3, n4⟩ := mid_facts da sa hda hsa
+  have hpass0 := tickSndOne_sending cfgO x.1 hiv msg b j wn ob.hstate ob.hdata ob.hnum ob.hnext ob.hwait hj hwn ob.hdl hdue
+  have hrR : sR.rcv.get? (Tp22.buffer_hash i (midDt sa da).source_address da) = some r := by rw [m1]; exact hr
+  obtain ⟨_, _, c3⟩ := Dll21.tp_id_parse 7 77 sa da (by omega) (by omega) hsa hda
+  by_cases hend : wn + 1 = Tp22.num_segments msg.length
+  · -- the window reaches the end of the message: FD.TP.DT j … n−1, then the end-of-message status
+    let bE : Snd := { b with next := ((wn + 1 : Nat) : Int), deadline := x.1 + Const.T22.T5, state := S_WAITING_EOM_ACK, src := sa,
+                             dest := da, session := i, messageSize := msg.length, numSegments := Tp22.num_segments msg.length,
+                             pgn := pgn }
+    let eomsF : Frame := Tp22.eom_status sa da i msg.length (Tp22.num_segments msg.length) pgn 0 0
+    have hpass : tickSndOne cfgO x.1 b =
+        (some bE, dtFrames sa da i msg j (wn + 1 - j) ++ [.tx eomsF], none, some (x.1 + Const.T22.T5), .none) := by
+      rw [hpass0, if_pos hend]; simp only [ob.hsrc, ob.hdest, ob.hsess, ob.hsize, ob.hnum, ob.hpgn]; rfl
+    let sO1 : St := sndApply sO (Tp22.buffer_hash i sa da) (some bE)
+    let q := rxAll cfgR accR x.2.1 sR (txFrames (dtFrames sa da i msg j (wn + 1 - j) ++ [.tx eomsF]))
+    let a := rxAll cfgO accO x.2.2 sO1 (txFrames q.2)
+    have hround : round cfgO cfgR accO accR i sa da x sO sR = some (a.1, q.1, q.2, a.2, .none) := by
+      simp only [round, hb, hpass]; rfl
+    -- the responder: the data frames
+    let q1 := feedDt sR (midDt sa da) da ((List.replicate (wn + 1 - j) x.2.1).zip (dtDatas sa da i msg j (wn + 1 - j)))
+    have hq1 : rxAll cfgR accR x.2.1 sR (txFrames (dtFrames sa da i msg j (wn + 1 - j))) = q1 := by
+      rw [dtFrames, txFrames_map]
+      exact rxAll_dt cfgR accR x.2.1 sa da i msg hsa hda (Or.inr haR) j (wn + 1 - j) sR
+    have hR := feed_last msg pgn mr (midDt sa da) da i sa x.2.1 hpos hdne hi16 h24 j wn sR r hj hend hrR rb
+    simp only at hR
+    rw [m1] at hR
+    obtain ⟨f1', f2', r1, f3', g1, g2, g3, g4⟩ := hR
+    have f1 : txFrames q1.2 = [] := f1'
+    have f2 : deliveries q1.2 = [] := f2'
+    have f3 : q1.1.rcv.get? (Tp22.buffer_hash i sa da) = some r1 := f3'
+    -- … and the end-of-message status
+    obtain ⟨_, _, cR3⟩ := Dll21.tp_id_parse 7 77 da sa (by omega) (by omega) hda hsa
+    have hide : eomsF.id = MessageId.can_id (MessageId.ofFields 7 (PGN.value (PGN.ofFields 0 77 da)) sa) := rfl
+    have hE := eoms_accepted cfgR q1.1 x.2.1 (midCm sa da) da i pgn msg r1 (by rw [m3]; exact hsne) hdne hi16 hlen h24 hp
+      (by rw [m3]; exact f3) g1 g2 g3 g4
+    simp only at hE
+    rw [m3, m4] at hE
+    obtain ⟨e1', e2, e3'⟩ := hE
+    have e1 : (processCm cfgR q1.1 x.2.1 (midCm sa da) da eomsF.data).outs =
+        [.notify 7 pgn sa da msg, .tx (Tp22.eom_ack da sa i msg.length (Tp22.num_segments msg.length) pgn)] := e1'
+    have e3 : (processCm cfgR q1.1 x.2.1 (midCm sa da) da eomsF.data).st.rcv.get? (Tp22.buffer_hash i sa da) = none := e3'
+    have hq : q = ((processCm cfgR q1.1 x.2.1 (midCm sa da) da eomsF.data).st, q1.2 ++ ((processCm cfgR q1.1 x.2.1 (midCm sa da) da eomsF.data).outs ++ [])) := by
+      show rxAll cfgR accR x.2.1 sR (txFrames (dtFrames sa da i msg j (wn + 1 - j) ++ [.tx eomsF])) = _
+      rw [txFrames_append, rxAll_append, hq1]
+      have : txFrames [Out.tx eomsF] = [eomsF] := rfl
+      rw [this]
+      simp only [rxAll, hide]
+      rw [notify_fd_cm cfgR q1.1 x.2.1 accR _ da _ cR3 hda (Or.inr haR)]
+      rfl
+    -- the originator and the acknowledgement
+    let eomaF : Frame := Tp22.eom_ack da sa i msg.length (Tp22.num_segments msg.length) pgn
+    have hq2 : txFrames q.2 = [eomaF] := by
+      rw [hq]; simp only [txFrames_append, f1, e1]; simp [txFrames, eomaF]
+    have hbE : sO1.snd.get? (Tp22.buffer_hash i sa (midCm da sa).source_address) = some bE := by
+      rw [n3]; exact PyDict.get?_set_self _ _ _
+    have hA := eoma_accepted cfgO sO1 x.2.2 (midCm da sa) sa i pgn msg.length (Tp22.num_segments msg.length) bE
+      (by rw [n3]; exact hdne) hi16 hp hlen h24 hbE
+    rw [n3, n4] at hA
+    have hida : eomaF.id = MessageId.can_id (MessageId.ofFields 7 (PGN.value (PGN.ofFields 0 77 sa)) da) := rfl
+    have ha : a = ((processCm cfgO sO1 x.2.2 (midCm da sa) sa eomaF.data).st, (processCm cfgO sO1 x.2.2 (midCm da sa) sa eomaF.data).outs ++ []) := by
+      show rxAll cfgO accO x.2.2 sO1 (txFrames q.2) = _
+      rw [hq2]
+      simp only [rxAll, hida]
+      rw [notify_fd_cm cfgO sO1 x.2.2 accO _ sa _ c3 hsa (Or.inr haO)]
+      rfl
+    rw [hA] at ha
+    refine ⟨a.1, q.1, q.2, a.2, hround, Or.inr ⟨?_, ?_, ?_, { bE with state := S_EOM_ACK_RECEIVED, deadline := x.2.2 }, ?_, rfl, rfl, rfl⟩⟩
+    · rw [hq]; simp only [deliveries_append, f2, e1]; simp [deliveries]
+    · rw [hq]; exact e3
+    · rw [ha]; simp [deliveries]
+    · rw [ha]; exact PyDict.get?_set_self _ _ _
+  · -- the window ends before the message does
+    have hlt : wn + 1 < Tp22.num_segments msg.length := by omega
+    let bW : Snd := { b with next := ((wn + 1 : Nat) : Int), state := S_WAITING_CTS, deadline := x.1 + Const.T22.T3, src := sa,
+                             dest := da, session := i }
+    have hpass : tickSndOne cfgO x.1 b = (some bW, dtFrames sa da i msg j (wn + 1 - j), none, some (x.1 + Const.T22.T3), .none) := by
+      rw [hpass0]; simp only [hend, if_false, ob.hsrc, ob.hdest, ob.hsess]; rfl
+    let sO1 : St := sndApply sO (Tp22.buffer_hash i sa da) (some bW)
+    let q := rxAll cfgR accR x.2.1 sR (txFrames (dtFrames sa da i msg j (wn + 1 - j)))
+    let a := rxAll cfgO accO x.2.2 sO1 (txFrames q.2)
+    have hround : round cfgO cfgR accO accR i sa da x sO sR = some (a.1, q.1, q.2, a.2, .none) := by
+      simp only [round, hb, hpass]; rfl
+    -- the responder
+    have hq : q = feedDt sR (midDt sa da) da ((List.replicate (wn + 1 - j) x.2.1).zip (dtDatas sa da i msg j (wn + 1 - j))) := by
+      show rxAll cfgR accR x.2.1 sR (txFrames (dtFrames sa da i msg j (wn + 1 - j))) = _
+      rw [dtFrames, txFrames_map]
+      exact rxAll_dt cfgR accR x.2.1 sa da i msg hsa hda (Or.inr haR) j (wn + 1 - j) sR
+    have hR := feed_window msg pgn mr (midDt sa da) da i sa x.2.1 hpos hdne hi16 h24 j wn sR r hj hlt hrR rb
+    simp only at hR
+    rw [← hq, m1] at hR
+    obtain ⟨f1, f2, r', f3, f4⟩ := hR
+    -- the originator and the CTS
+    have hg : 0 < min mr (Tp22.num_segments msg.length - (wn + 1)) := by omega
+    have hbW : sO1.snd.get? (Tp22.buffer_hash i sa (midCm da sa).source_address) = some bW := by
+      rw [n3]; exact PyDict.get?_set_self _ _ _
+    have hcts := cts_accepted cfgO sO1 x.2.2 (midCm da sa) sa i pgn bW (wn + 1)
+      (min mr (Tp22.num_segments msg.length - (wn + 1))) (by rw [n3]; exact hdne) hi16 hp hbW hg (by omega) (by omega)
+      (by show wn + 1 + _ ≤ b.numSegments; rw [ob.hnum]; omega) (by show b.numSegments < _; rw [ob.hnum]; exact h24)
+    rw [n3] at hcts
+    have hidc : (Tp22.cts da sa i (min mr (Tp22.num_segments msg.length - (wn + 1))) (wn + 2) pgn).id =
+        MessageId.can_id (MessageId.ofFields 7 (PGN.value (PGN.ofFields 0 77 sa)) da) := rfl
+    have e2 : wn + 2 = wn + 1 + 1 := by omega
+    have ha : a = rxAll cfgO accO x.2.2 sO1 [Tp22.cts da sa i (min mr (Tp22.num_segments msg.length - (wn + 1))) (wn + 2) pgn] := by
+      show rxAll cfgO accO x.2.2 sO1 (txFrames q.2) = _
+      rw [f1]
+    have ha' : a = ((processCm cfgO sO1 x.2.2 (midCm da sa) sa (Tp22.cts da sa i (min mr (Tp22.num_segments msg.length - (wn + 1))) (wn + 1 + 1) pgn).data).st,
+        (processCm cfgO sO1 x.2.2 (midCm da sa) sa (Tp22.cts da sa i (min mr (Tp22.num_segments msg.length - (wn + 1))) (wn + 1 + 1) pgn).data).outs ++ []) := by
+      rw [ha]
+      simp only [rxAll, hidc]
+      rw [notify_fd_cm cfgO sO1 x.2.2 accO _ sa _ c3 hsa (Or.inr haO), e2]
+      rfl
+    rw [hcts] at ha'
+    let bN : Snd := { bW with next := ((wn + 1 : Nat) : Int),
+                              waitOn := some (((wn + 1 + min mr (Tp22.num_segments msg.length - (wn + 1)) - 1 : Nat) : Int)),
+                              state := S_SENDING_RTS_CTS, deadline := x.2.2 }
+    refine ⟨a.1, q.1, q.2, a.2, hround, Or.inl ⟨wn + min mr (Tp22.num_segments msg.length - (wn + 1)), bN, r', by omega, by omega, ?_, f3, ?_, ?_, ?_, f2, ?_⟩⟩
+    · rw [ha']; exact PyDict.get?_set_self _ _ _
+    · refine ⟨ob.hdata, ob.hnum, ob.hsize, rfl, ?_, rfl, ?_, rfl, rfl, rfl, ob.hpgn⟩
+      · show some (((wn + 1 + min mr (Tp22.num_segments msg.length - (wn + 1)) - 1 : Nat) : Int)) = some (((wn + min mr (Tp22.num_segments msg.length - (wn + 1)) : Nat) : Int))
+        congr 2; omega
+      · show x.2.2 ≠ 0; omega
+    · have e : min (wn + 1 + mr) (Tp22.num_segments msg.length) = wn + min mr (Tp22.num_segments msg.length - (wn + 1)) + 1 := by omega
+      rw [← e]; exact f4
+    · rfl
+    · rw [ha']; simp [deliveries]
+/-- rounds until the list ends, the originator's record is gone, or a round released the session number -/
+def run (cfgO cfgR : Cfg) (accO accR : Nat → Bool) (i sa da : Nat) : List (Nat × Nat × Nat) → St → St → St × St × List Out × List Out × Release
+  | [], sO, sR => (sO, sR, [], [], .none)
+  | x :: xs, sO, sR =>
+    match round cfgO cfgR accO accR i sa da x sO sR with
+    | none => (sO, sR, [], [], .none)
+    | some (sO', sR', oR, oO, .none) =>
+      let q := run cfgO cfgR accO accR i sa da xs sO' sR'
+      (q.1, q.2.1, oR ++ q.2.2.1, oO ++ q.2.2.2.1, q.2.2.2.2)
+    | some (sO', sR', oR, oO, rel) => (sO', sR', oR, oO, rel)
+
+/-- every round's pass finds the record due: not before the deadline `d`, the next one not before the answers of this
+    round were handled -/
+def Sched : Nat → List (Nat × Nat × Nat) → Prop
+  | _, [] => True
+  | d, x :: xs => d ≤ x.1 ∧ 0 < x.2.2 ∧ Sched x.2.2 xs
+
+/-- the round after the acknowledgement: the record is deleted and its number goes back to the RTS/CTS pool -/
+theorem round_final (cfgO cfgR : Cfg) (accO accR : Nat → Bool) (i sa da : Nat) (x : Nat × Nat × Nat) (sO sR : St) (b : Snd)
+    (hb : sO.snd.get? (Tp22.buffer_hash i sa da) = some b) (hs : b.state = S_EOM_ACK_RECEIVED) (hd0 : b.deadline ≠ 0)
+    (hdue : b.deadline ≤ x.1) (hsess : b.session = i) :
+    round cfgO cfgR accO accR i sa da x sO sR =
+      some ({ sO with snd := sO.snd.erase (Tp22.buffer_hash i sa da) }, sR, [], [], .rts i) := by
+  have e1 : (b.deadline != 0) = true := by simpa using hd0
+  have e2 : ¬ b.deadline > x.1 := by omega
+  have n14 : (S_EOM_ACK_RECEIVED == S_WAITING_CTS) = false := by decide
+  have n24 : (S_EOM_ACK_RECEIVED == S_SENDING_RTS_CTS) = false := by decide
+  have n34 : (S_EOM_ACK_RECEIVED == S_WAITING_EOM_ACK) = false := by decide
+  have ht : tickSndOne cfgO x.1 b = (none, [], none, none, .rts i) := by
+    unfold tickSndOne
+    simp only [e1, if_true, e2, if_false, hs, n14, n24, n34, Bool.false_eq_true, beq_self_eq_true, hsess]
+  simp only [round, hb, ht, txFrames, List.filterMap_nil, rxAll, sndApply]
+
+/-- THE SESSION RUNS TO COMPLETION (FD connection mode): from any state of the invariant, any schedule of due rounds that
+    is long enough delivers the message exactly once, reports exactly one acknowledgement, leaves no record on either
+    side and returns the session number to the RTS/CTS pool -/
+theorem run_delivers (cfgO cfgR : Cfg) (accO accR : Nat → Bool) (hiv : cfgO.cmdtInterval = none) (msg : List Nat) (i sa da pgn mr : Nat)
+    (hpos : 0 < msg.length) (hlen : msg.length < 16777216) (hp : pgn < 16777216) (hi16 : i < 16)
+    (hsa : sa < 256) (hda : da < 256) (hdne : da ≠ 255) (hsne : sa ≠ 255) (haO : accO sa = true) (haR : accR da = true)
+    (hmr : 0 < mr) (hmr256 : mr < 256) (hmrO : mr ≤ cfgO.maxCmdt) (m : Nat) :
+    ∀ (xs : List (Nat × Nat × Nat)) (sO sR : St) (j wn d : Nat) (b : Snd) (r : Rcv),
+    Tp22.num_segments msg.length - j ≤ m → j ≤ wn → wn < Tp22.num_segments msg.length →
+    sO.snd.get? (Tp22.buffer_hash i sa da) = some b → sR.rcv.get? (Tp22.buffer_hash i sa da) = some r →
+    OInv msg i sa da pgn j wn b → RInv msg pgn j (wn + 1) mr r → b.deadline ≤ d → Sched d xs → m + 1 ≤ xs.length →
+    let q := run cfgO cfgR accO accR i sa da xs sO sR
+    deliveries q.2.2.1 = [(7, pgn, sa, da, msg)] ∧ q.2.1.rcv.get? (Tp22.buffer_hash i sa da) = none ∧
+    deliveries q.2.2.2.1 = [(7, pgn, da, sa, (Tp22.eom_ack da sa i msg.length (Tp22.num_segments msg.length) pgn).data)] ∧
+    q.1.snd.get? (Tp22.buffer_hash i sa da) = none ∧ q.2.2.2.2 = .rts i := by
+  induction m with
+  | zero => intro xs sO sR j wn d b r h1 h2 h3; omega
+  | succ m ih =>
+    intro xs sO sR j wn d b r hm hj hwn hb hr ob rb hdl hsched hxs
+    obtain ⟨x, xs, rfl⟩ : ∃ x xs', xs = x :: xs' := by
+      cases xs with
+      | nil => simp at hxs
+      | cons x xs => exact ⟨x, xs, rfl⟩
+    simp only [List.length_cons, Nat.add_le_add_iff_right] at hxs
+    obtain ⟨s1, s2, s3⟩ := hsched
+    obtain ⟨sO', sR', oR, oO, hround, hcase⟩ := c02_rtscts_round cfgO cfgR accO accR hiv msg i sa da pgn mr hpos hlen hp hi16 hsa hda hdne hsne
+      haO haR hmr hmr256 hmrO x sO sR j wn b r hj hwn hb hr ob rb (by omega) s2
+    simp only [run, hround]
+    rcases hcase with ⟨wn', b', r', c1, c2, c3, c4, c5, c6, c7, c8, c9⟩ | ⟨c1, c2, c3, bf, c4, c5, c6, c7⟩
+    · have := ih xs sO' sR' (wn + 1) wn' x.2.2 b' r' (by omega) (by omega) c2 c3 c4 c5 c6 (by omega) s3 hxs
+      simp only at this
+      obtain ⟨i1, i2, i3, i4, i5⟩ := this
+      rw [deliveries_append, deliveries_append, c8, c9, List.nil_append, List.nil_append]
+      exact ⟨i1, i2, i3, i4, i5⟩
+    · obtain ⟨x', xs', rfl⟩ : ∃ x xs', xs = x :: xs' := by
+        cases xs with
+        | nil => simp at hxs
+        | cons x xs => exact ⟨x, xs, rfl⟩
+      obtain ⟨t1, _, _⟩ := s3
+      have hfin := round_final cfgO cfgR accO accR i sa da x' sO' sR' bf c4 c5 (by rw [c6]; omega) (by rw [c6]; omega) c7
+      simp only [run, hfin, List.append_nil]
+      exact ⟨c1, c2, c3, PyDict.get?_erase_self _ _, trivial⟩
+/-- the PGN a destination-specific transfer announces: PS cleared -/
+def rtsPgn (dp pf ps : Nat) : Nat := PGN.value { PGN.ofFields dp pf ps with pdu_specific := 0 }
+
+theorem rtsPgn_lt (dp pf ps : Nat) : rtsPgn dp pf ps < 16777216 := by
+  unfold rtsPgn
+  have w := Lemmas.pgn_ofFields_wf dp pf ps
+  have w0 : Lemmas.PGN.WF { PGN.ofFields dp pf ps with pdu_specific := 0 } := by
+    obtain ⟨a, b, _⟩ := w
+    exact ⟨a, b, by simp⟩
+  rw [Lemmas.pgn_value_arith _ w0]; obtain ⟨a, b, c⟩ := w0; simp only at a b c ⊢; omega
+
+/-- the send record of an FD destination-specific transfer that got session number `i` -/
+def rtsRec (now dp pf ps prio sa i : Nat) (msg : List Nat) : Snd :=
+  { pgn := rtsPgn dp pf ps, priority := prio, session := i, messageSize := msg.length, numSegments := Tp22.num_segments msg.length,
+    data := chunks60 msg, state := S_WAITING_CTS, deadline := now + Const.T22.T3, src := sa, dest := ps, next := 0, waitOn := some 0 }
+
+/-- an accepted destination-specific message of more than 60 bytes, exactly -/
+theorem sendPgn_rts (cfg : Cfg) (s : St) (now dp pf ps prio sa : Nat) (msg : List Nat) (tl ff : Nat) (hl : 60 < msg.length)
+    (hb : (ps == Const.Addr.GLOBAL || PGN.is_pdu2_format (PGN.ofFields 0 pf ps)) = false)
+    (hacc : (sendPgn cfg s now dp pf ps prio sa msg tl ff).2 = true) :
+    ∃ i pool, poolGet s.rtsPool = some (i, pool) ∧
+      (sendPgn cfg s now dp pf ps prio sa msg tl ff).1 =
+        { st := { s with rtsPool := pool, snd := s.snd.set (Tp22.buffer_hash i sa ps) (rtsRec now dp pf ps prio sa i msg) },
+          outs := [.tx (Tp22.rts prio sa ps i (rtsPgn dp pf ps) msg.length (Tp22.num_segments msg.length)
+                          (min cfg.maxCmdt (Tp22.num_segments msg.length)) 0), .wake] } := by
+  have hl' : ¬ msg.length ≤ Const.DL22.TP := by
+    have : Const.DL22.TP = 60 := rfl
+    omega
+  unfold sendPgn at hacc ⊢
+  simp only [hl', if_false, hb, Bool.false_eq_true] at hacc ⊢
+  cases hg : poolGet s.rtsPool with
+  | none => simp [hg] at hacc
+  | some r =>
+    obtain ⟨i, pool⟩ := r
+    exact ⟨i, pool, rfl, by simp [rtsRec, rtsPgn]⟩
+/-- FD CONNECTION MODE FROM END TO END (J1939-22, handlers atomic, no timeouts, no minimum packet interval configured at
+    the originator): an accepted destination-specific message of 61 … 2^24−1 bytes takes session number i < 8 from the
+    RTS/CTS pool; the responder (no record for (i, pair), any other state, own window limit ≥ 1) receives the RTS through
+    `notify`, the originator the CTS, and then ROUNDS follow — originator pass, the responder receives that pass's frames
+    (FD.TP.DT segments and, at the end, the end-of-message status) through `notify`, the originator receives the answers
+    (CTS for the next window, or the end-of-message acknowledgement) through `notify` — under ANY schedule that finds the
+    record due each time, whatever the two window limits.  After at most ⌈len/60⌉ + 1 rounds: the responder has delivered
+    the message EXACTLY ONCE — announced PGN, originator's address, its own address, byte-identical payload —, the
+    originator has reported exactly one acknowledgement, neither side keeps a session record, and the session number has
+    been returned to the RTS/CTS pool -/
+theorem c02_rtscts_end_to_end (cfgO cfgR : Cfg) (accO accR : Nat → Bool) (sO sR : St) (t0 tR tO dp pf prio sa da tl ff : Nat) (msg : List Nat)
+    (hiv : cfgO.cmdtInterval = none) (hcO : 0 < cfgO.maxCmdt) (hcO256 : cfgO.maxCmdt < 256) (hcR : 0 < cfgR.maxCmdt)
+    (hl : 60 < msg.length) (hlen : msg.length < 16777216) (hprio : prio < 8)
+    (hsa : sa < 256) (hda : da < 256) (hsne : sa ≠ 255) (haO : accO sa = true) (haR : accR da = true)
+    (hb : (da == Const.Addr.GLOBAL || PGN.is_pdu2_format (PGN.ofFields 0 pf da)) = false)
+    (hacc : (sendPgn cfgO sO t0 dp pf da prio sa msg tl ff).2 = true) (hpool : sO.rtsPool.length = 8)
+    (hfree : ∀ i, sR.rcv.contains (Tp22.buffer_hash i sa da) = false)
+    (htO : 0 < tO) (xs : List (Nat × Nat × Nat)) (hsched : Sched tO xs) (hxs : Tp22.num_segments msg.length + 1 ≤ xs.length) :
+    ∃ i, i < 8 ∧
+      let r0 := (sendPgn cfgO sO t0 dp pf da prio sa msg tl ff).1
+      let a1 := rxAll cfgR accR tR sR (txFrames r0.outs)
+      let a2 := rxAll cfgO accO tO r0.st (txFrames a1.2)
+      let q := run cfgO cfgR accO accR i sa da xs a2.1 a1.1
+      deliveries (a1.2 ++ q.2.2.1) = [(7, rtsPgn dp pf da, sa, da, msg)] ∧
+      q.2.1.rcv.get? (Tp22.buffer_hash i sa da) = none ∧
+      deliveries (a2.2 ++ q.2.2.2.1) =
+        [(7, rtsPgn dp pf da, da, sa, (Tp22.eom_ack da sa i msg.length (Tp22.num_segments msg.length) (rtsPgn dp pf da)).data)] ∧
+      q.1.snd.get? (Tp22.buffer_hash i sa da) = none ∧ q.2.2.2.2 = .rts i := by
+  have hdne : da ≠ 255 := by
+    intro h; simp [h] at hb
+  have hpos : 0 < msg.length := by omega
+  have hn : 0 < Tp22.num_segments msg.length := by
+    have := (num_segments_spec msg.length).1; omega
+  have h24 : Tp22.num_segments msg.length < 16777216 := by
+    have := (num_segments_spec msg.length).2 hpos; omega
+  obtain ⟨i, pool, hg, hr0⟩ := sendPgn_rts cfgO sO t0 dp pf da prio sa msg tl ff hl hb hacc
+  obtain ⟨g1, _, _⟩ := poolGet_some _ _ _ hg
+  have hi : i < 8 := by
+    rcases Nat.lt_or_ge i sO.rtsPool.length with hh | hh
+    · omega
+    · rw [List.getElem?_eq_none hh] at g1; cases g1
+  refine ⟨i, hi, ?_⟩
+  intro r0 a1 a2 q
+  obtain ⟨n1, n2, n3, n4⟩ := mid_facts da sa hda hsa
+  -- the responder and the RTS
+  obtain ⟨p1, p2, p3⟩ := Dll21.tp_id_parse prio 77 da sa hprio (by omega) hda hsa
+  have hrts := rts_accepted cfgR sR tR
+    (MessageId.ofCanId (MessageId.can_id (MessageId.ofFields prio (PGN.value (PGN.ofFields 0 77 da)) sa))) da prio i (rtsPgn dp pf da)
+    msg.length (Tp22.num_segments msg.length) (min cfgO.maxCmdt (Tp22.num_segments msg.length))
+    (by rw [p1]; exact hsne) (by omega) (rtsPgn_lt _ _ _) hlen h24 (by omega) (by rw [p1]; exact hfree i)
+  rw [p1] at hrts
+  generalize hgdef : min cfgR.maxCmdt (min (min cfgO.maxCmdt (Tp22.num_segments msg.length)) (Tp22.num_segments msg.length)) = g at hrts
+  have hg0 : 0 < g := by omega
+  have hgn : g ≤ Tp22.num_segments msg.length := by omega
+  have hgO : g ≤ cfgO.maxCmdt := by omega
+  have hr0outs : txFrames r0.outs = [Tp22.rts prio sa da i (rtsPgn dp pf da) msg.length (Tp22.num_segments msg.length)
+      (min cfgO.maxCmdt (Tp22.num_segments msg.length)) 0] := by
+    show txFrames (sendPgn cfgO sO t0 dp pf da prio sa msg tl ff).1.outs = _
+    rw [hr0]; rfl
+  have hidr : (Tp22.rts prio sa da i (rtsPgn dp pf da) msg.length (Tp22.num_segments msg.length)
+      (min cfgO.maxCmdt (Tp22.num_segments msg.length)) 0).id =
+      MessageId.can_id (MessageId.ofFields prio (PGN.value (PGN.ofFields 0 77 da)) sa) := rfl
+  let rR : Rcv := { pgn := rtsPgn dp pf da, session := i, messageSize := msg.length, numSegments := Tp22.num_segments msg.length,
+                    nextPacket := 1, ctsBorder := some g, maxRec := some g, data := [], deadline := tR + Const.T22.T2, src := sa,
+                    dest := da }
+  let sR1 : St := { sR with rcv := sR.rcv.set (Tp22.buffer_hash i sa da) rR }
+  have ha1 : a1 = (sR1, [Out.tx (Tp22.cts da sa i g 1 (rtsPgn dp pf da)), Out.wake] ++ []) := by
+    show rxAll cfgR accR tR sR (txFrames r0.outs) = _
+    rw [hr0outs]
+    simp only [rxAll, hidr]
+    rw [notify_fd_cm cfgR sR tR accR _ da _ p3 hda (Or.inr haR), hrts]
+  -- the originator and the first CTS
+  obtain ⟨_, _, c3⟩ := Dll21.tp_id_parse 7 77 sa da (by omega) (by omega) hsa hda
+  have hb0 : r0.st.snd.get? (Tp22.buffer_hash i sa (midCm da sa).source_address) = some (rtsRec t0 dp pf da prio sa i msg) := by
+    rw [n3]
+    show (sendPgn cfgO sO t0 dp pf da prio sa msg tl ff).1.st.snd.get? _ = _
+    rw [hr0]; exact PyDict.get?_set_self _ _ _
+  have hcts := cts_accepted cfgO r0.st tO (midCm da sa) sa i (rtsPgn dp pf da) (rtsRec t0 dp pf da prio sa i msg) 0 g
+    (by rw [n3]; exact hdne) (by omega) (rtsPgn_lt _ _ _) hb0 hg0 (by omega) hgO (by show 0 + g ≤ Tp22.num_segments msg.length; omega)
+    (by show Tp22.num_segments msg.length < _; exact h24)
+  rw [n3] at hcts
+  have hidc : (Tp22.cts da sa i g 1 (rtsPgn dp pf da)).id =
+      MessageId.can_id (MessageId.ofFields 7 (PGN.value (PGN.ofFields 0 77 sa)) da) := rfl
+  let bN : Snd := { rtsRec t0 dp pf da prio sa i msg with next := ((0 : Nat) : Int), waitOn := some (((0 + g - 1 : Nat) : Int)),
+                                                          state := S_SENDING_RTS_CTS, deadline := tO }
+  let sO1 : St := { r0.st with snd := r0.st.snd.set (Tp22.buffer_hash i sa da) bN }
+  have ha2 : a2 = (sO1, [Out.wake] ++ []) := by
+    show rxAll cfgO accO tO r0.st (txFrames a1.2) = _
+    rw [ha1]
+    have : txFrames ([Out.tx (Tp22.cts da sa i g 1 (rtsPgn dp pf da)), Out.wake] ++ []) = [Tp22.cts da sa i g 1 (rtsPgn dp pf da)] := rfl
+    rw [this]
+    simp only [rxAll, hidc]
+    rw [notify_fd_cm cfgO r0.st tO accO _ sa _ c3 hsa (Or.inr haO)]
+    have e : (1 : Nat) = 0 + 1 := rfl
+    rw [e]
+    show ((processCm cfgO r0.st tO (midCm da sa) sa (Tp22.cts da sa i g (0 + 1) (rtsPgn dp pf da)).data).st,
+      (processCm cfgO r0.st tO (midCm da sa) sa (Tp22.cts da sa i g (0 + 1) (rtsPgn dp pf da)).data).outs ++ []) = _
+    rw [hcts]
+  have hrun := run_delivers cfgO cfgR accO accR hiv msg i sa da (rtsPgn dp pf da) g hpos hlen (rtsPgn_lt _ _ _) (by omega) hsa hda hdne hsne
+    haO haR hg0 (by omega) hgO (Tp22.num_segments msg.length) xs a2.1 a1.1 0 (g - 1) tO bN rR (by omega) (by omega) (by omega)
+    (by rw [ha2]; exact PyDict.get?_set_self _ _ _) (by rw [ha1]; exact PyDict.get?_set_self _ _ _)
+    ⟨rfl, rfl, rfl, rfl, by show some (((0 + g - 1 : Nat) : Int)) = some (((g - 1 : Nat) : Int)); congr 2; omega, rfl,
+      by show tO ≠ 0; omega, rfl, rfl, rfl, rfl⟩
+    ⟨rfl, rfl, rfl, rfl, by show some g = some (g - 1 + 1); congr 1; omega, rfl, rfl⟩ (by show tO ≤ tO; omega) hsched hxs
+  simp only at hrun
+  obtain ⟨i1, i2, i3, i4, i5⟩ := hrun
+  refine ⟨?_, i2, ?_, i4, i5⟩
+  · rw [deliveries_append, i1, ha1]; simp [deliveries]
+  · rw [deliveries_append, i3, ha2]; simp [deliveries]
 
 
 end J1939.Props.C02
